@@ -19,7 +19,9 @@ ALL_LOAD = ['load', 'load_all', 'compose', 'compose_all', 'parse', 'scan']
 ALL_GEN = ['load_all', 'compose_all', 'parse', 'scan']
 ALL_DUMP = ['dump', 'dump_all', 'serialize', 'serialize_all', 'emit']
 DOCS_ALL = ['plain', 'scanerr', 'parseerr', 'comperr', 'ctorerr', 'yamldir', 'tagdir', 'usetag', 'stdtag', 'anchors',
-            'usealias', 'rec', 'pyobj', 'deepfail', 'ucall', 'ugen', 'umulti', 'paths']
+            'usealias', 'rec', 'pyobj', 'deepfail', 'ucall', 'ugen', 'umulti', 'paths',
+            'pyplain', 'slots', 'deepalias', 'newalias', 'keyed', 'ydeep', 'ykeyed']
+OBJ_DOCS = ['pyplain', 'slots', 'deepalias', 'newalias', 'keyed', 'ydeep', 'ykeyed']     # python objects / YAMLObject subclasses
 VALS_ALL = ['plainv', 'shared', 'shared2', 'recv', 'reprerr', 'tagged', 'usesve', 'verv', 'urepr', 'umrepr', 'uni', 'uniau', 'scalarv',
             'pathsv']
 DOCS12 = ['plain', 'scanerr', 'parseerr', 'comperr', 'ctorerr', 'yamldir', 'tagdir', 'usetag', 'stdtag', 'anchors',
@@ -72,6 +74,14 @@ HIST_CONFIGS = [
                      Vals=['pathsv', 'reprerr'], MaxHist=2), 'qt'),
     ('faults', cfg(LoadOps=['load'], GenOps=['load_all'], DumpOps=['dump'], Classes=['user'], Backends=['py', 'c'],
                    Docs=['ucall', 'ugen', 'umulti'], Vals=['urepr', 'umrepr'], MaxHist=2, Faults=True), 'qt'),
+    # python objects: instances of ordinary / slots-only classes, classes that take their state themselves, objects as
+    # mapping keys - calls and suspended generators of the unsafe classes, both back-ends
+    ('pyobj2', cfg(LoadOps=['load'], GenOps=['load_all'], Classes=['unsafe'], Backends=['py', 'c'],
+                   Docs=['pyplain', 'slots', 'keyed', 'pyobj'], MaxHist=2), 'q'),
+    ('pyobj3', cfg(LoadOps=['load'], GenOps=['load_all'], Classes=['unsafe'], Backends=['py', 'c'],
+                   Docs=['pyplain', 'slots', 'keyed', 'deepalias'], MaxHist=3), 't'),
+    ('yobj2', cfg(LoadOps=['load'], GenOps=['load_all'], Classes=['user', 'unsafe'], Backends=['py', 'c'],
+                  Docs=['ydeep', 'ykeyed', 'deepalias', 'keyed'], MaxHist=2), 't'),
     ('load4', cfg(LoadOps=['load', 'load_all'], GenOps=['load_all'], Docs=['tagdir', 'usetag', 'anchors'], MaxHist=4), 't'),
     ('wide2', cfg(LoadOps=['load', 'compose'], GenOps=['load_all'], Classes=['safe', 'unsafe'], Docs=DOCS_ALL[:14], MaxHist=2), 't'),
     ('gens2', cfg(LoadOps=['load'], GenOps=['load_all', 'parse'], Docs=['tagdir', 'usetag', 'anchors'], MaxHist=4, MaxGens=2), 't'),
@@ -86,6 +96,11 @@ STREAM_CONFIGS = [
                       Docs=DOCS_ALL[:14], MaxHist=1, MaxStream=2, Impls=[True, False]), 't'),
     ('streams3t', cfg(LoadOps=['load_all', 'compose_all', 'parse', 'scan'], Backends=['py', 'c'], Docs=DOCS12[:2] + DOCS12[3:5] + DOCS12[6:],
                       MaxHist=1, MaxStream=3), 't'),
+    # streams of python-object documents: two-step objects, deep constructions over aliases, objects as mapping keys
+    ('ostreams2', cfg(LoadOps=['load_all'], Classes=['unsafe', 'user'], Backends=['py', 'c'], Docs=['plain', 'pyobj'] + OBJ_DOCS, MaxHist=1,
+                      MaxStream=2), 'q'),
+    ('ostreams3', cfg(LoadOps=['load_all'], Classes=['unsafe', 'user'], Backends=['py', 'c'], Docs=['plain'] + OBJ_DOCS, MaxHist=1,
+                      MaxStream=3), 't'),
     ('vstreams3d', cfg(DumpOps=['dump_all'], Classes=['user'], Backends=['py', 'c'],
                        Vals=['plainv', 'shared2', 'tagged', 'usesve', 'scalarv'], MaxHist=1, MaxStream=3), 'q'),
     ('vstreams3s', cfg(DumpOps=['serialize_all'], Classes=['user'], Backends=['py', 'c'],
@@ -111,6 +126,10 @@ MUTATION_CFGS = [
     ('keep_anchor_id', 'H_Documents', dict(DumpOps=['dump_all'], Vals=['shared2'])),
     ('keep_tag_prefixes', 'H_Documents', dict(DumpOps=['emit'], Vals=['tagged', 'usesve'])),
     ('shared_text_buffer', 'H_Globals', dict(DumpOps=['dump_all', 'dump'], IOs=['mem'], Vals=['plainv', 'reprerr'], Faults=False)),
+    ('shared_slotstate', 'H_Globals', dict(LoadOps=['load_all'], Classes=['unsafe'], IOs=['mem'], Docs=['slots', 'pyplain'], MaxStream=1,
+                                           Faults=False)),
+    ('deep_sticky', 'H_Documents', dict(LoadOps=['load_all'], Classes=['unsafe', 'user'], IOs=['mem'],
+                                        Docs=['deepalias', 'newalias', 'ydeep', 'keyed', 'ykeyed'], Faults=False)),
     ('flush_in_finally', 'H_FaultTransparency', dict(DumpOps=['dump_all'], Vals=['plainv'], MaxStream=1, Persistent=True)),
     ('annotate_marked_error', 'H_FaultTransparency', dict(LoadOps=['load_all'], Docs=['ucall'], MaxStream=1)),
     ('dispose_raises', 'H_FaultTransparency', dict(DumpOps=['dump_all'], Vals=['shared2', 'plainv'])),
@@ -368,7 +387,7 @@ def main(tier, replay=None):
                      Vals=['shared2', 'reprerr', 'tagged', 'usesve', 'urepr'], MaxHist=3, Faults=True, KeepHist=False)
     futs = {'micro': ex.submit(run_tlc, 'C11_micro', 'MC_Api_design.cfg', micro, 4, 1500, True),
             'design': ex.submit(run_tlc, 'C11_design', 'MC_Api_hist.cfg', design, 6 if tier == 'quick' else 8, 2400)}
-    muts = MUTATIONS if tier == 'thorough' else MUTATIONS[:0]
+    muts = MUTATIONS if tier == 'thorough' else [m for m in MUTATIONS if m[0] in ('shared_slotstate', 'deep_sticky')]
     for m, _ in muts:
         futs['mut_' + m] = ex.submit(run_tlc, 'C11_mut_' + m, 'MC_Api_hist.cfg', mutation_cfg(m), 2, 900)
 
